@@ -153,16 +153,24 @@ extern "C" void hfsm2_verif_break(const char* file, int line) noexcept;
 
 #ifdef HV_FUZZER
 
+// libFuzzer build: property and known-finding ids come from the environment (HV_PROP, HV_KNOWN); statistics are written at exit
 #define HV_MAIN(DESC)                                                                             \
 	extern "C" void hfsm2_verif_break(const char* file, int line) noexcept {                      \
 		auto& b = hv::breaks(); if (!b.count++) { b.file = file; b.line = line; } }               \
 	static hv::Stats g_fstats;                                                                    \
+	static void hv_fuzz_exit() { if (const char* p = std::getenv("HV_STATS")) g_fstats.writeJson(p); } \
 	extern "C" int LLVMFuzzerTestOneInput(const uint8_t* data, size_t size) {                     \
+		static bool inited = false;                                                               \
+		if (!inited) { inited = true; auto& o = hv::opts();                                       \
+			if (const char* p = std::getenv("HV_PROP")) o.prop = p;                               \
+			if (const char* k = std::getenv("HV_KNOWN")) { std::string ks = k; size_t p = 0; while (p <= ks.size()) { size_t q = ks.find(',', p); if (q == std::string::npos) q = ks.size(); if (q > p) o.known.insert(ks.substr(p, q - p)); p = q + 1; } } \
+			g_fstats.binary = "fuzzer"; hv_init(g_fstats); std::atexit(hv_fuzz_exit); }            \
 		hv::Bytes c(data, data + size);                                                           \
 		hv::breaks() = hv::BreakLatch{};                                                          \
 		std::string v = hv_run(c, g_fstats);                                                      \
 		if (!v.empty()) {                                                                         \
 			std::fprintf(stderr, "HV-FAIL %s\n%s\n", v.c_str(), hv_render(c).c_str());            \
+			hv_fuzz_exit();                                                                       \
 			__builtin_trap();                                                                     \
 		}                                                                                         \
 		return 0;                                                                                 \
